@@ -707,10 +707,13 @@ pub fn gen_case_h(reg: &Registry, s: &dyn Subject, seed: u64, i: u64, h: Host) -
     let hh = vcore::evidence::hash64(s.name());
     let mut rng = Rng::derive(seed, hh, i);
     let fault_pm = *rng.pick(&[0u32, 40, 100, 200, 350]);
+    // one payload in forty is BULKY: sequences and maps of 130..280 entries (limits, counters and caches that only
+    // show after a hundred-odd elements / failures inside one document), kept shallow to bound the size
+    let bulky = i % 40 == 7;
     let opts = GenOpts {
         fault_pm,
-        max_depth: 5,
-        max_len: 1 + rng.below(4),
+        max_depth: if bulky { 2 } else { 5 },
+        max_len: if bulky { 130 + rng.below(150) } else { 1 + rng.below(4) },
         allow_dup: hostile && h.dup && (rng.chance(1, 3) || (!h.nonfinite && !h.noncanon)),
         allow_key_alias: h.alias,
         allow_nonfinite: hostile && h.nonfinite && (rng.chance(1, 3) || (!h.dup && !h.noncanon)),
